@@ -95,12 +95,16 @@ def durationValueWithin (d : Int) : VCmp := fun x y =>
   let (xd, yd, equal, ok, early) := cmpDuration x y
   if early then (equal, ok) else (durWithinD d xd yd, true)
 
-/-- The arithmetic of `DurationValueWithinP`: `pd := float32(xd)/float32(yd); if pd < 0 {pd = -pd}; pd < p`
-(conversion and division exact in the model). -/
+/-- The arithmetic of `DurationValueWithinP` ("within p percent of each other"):
+`fx, fy := float64(xd), float64(yd); math.Abs(fx-fy)*100 <= float64(p)*math.Min(math.Abs(fx), math.Abs(fy))`
+(conversions, difference and products exact in the model). -/
 def durWithinPD (p : F) (xd yd : Int) : Bool :=
-  let pd := F.div (F.ofRat xd) (F.ofRat yd)
-  let pd := if F.lt pd (F.ofRat 0) then F.neg pd else pd
-  F.lt pd p
+  let fx := F.ofRat xd
+  let fy := F.ofRat yd
+  F.le (F.mul (F.abs (F.sub fx fy)) (F.ofRat 100)) (F.mul p (F.min (F.abs fx) (F.abs fy)))
+
+/-- The smaller of the two magnitudes. -/
+def minAbs (x y : Int) : Rat := if (x : Rat).abs < (y : Rat).abs then (x : Rat).abs else (y : Rat).abs
 
 /-- `DurationValueWithinP(p)`. -/
 def durationValueWithinP (p : F) : VCmp := fun x y =>
